@@ -1161,7 +1161,7 @@ def gen_utils_glue():
 # ==========================================================================================
 _RFA_METHODS = [("AbstractRFA", "_initial_oversample"), ("AbstractRFA", "_initial_x_oversample"), ("AbstractRFA", "_initial_y_oversample"),
                 ("PiecewiseConstantRFA", "rfa"), ("FunctionRFA", "rfa"), ("LinearFixedRFA", "rfa"), ("LinearAdaptiveRFA", "rfa"), ("ExpFixedRFA", "rfa"),
-                ("ExpAdaptiveRFA", "rfa")]
+                ("ExpAdaptiveRFA", "rfa"), ("LinearAdaptiveRFA", "get_adaptive_transition_points")]
 
 
 @target("RfaGlue")
@@ -1217,10 +1217,15 @@ def gen_rfa_glue():
                     fn = sub
             if fn is None:
                 raise TranslateError("%s: %s.%s not found" % (fname, cname, mname))
-            if fn.decorator_list:
+            static = [d for d in fn.decorator_list if isinstance(d, ast.Name) and d.id == "staticmethod"]
+            if len(static) != len(fn.decorator_list):
                 raise TranslateError("%s: decorator on %s.%s" % (fname, cname, mname))
             names = [x.arg for x in fn.args.args]
-            if names[:1] != ["self"]:
+            if static:
+                if names[:1] == ["self"]:
+                    raise TranslateError("%s: static method %s.%s takes self" % (fname, cname, mname))
+                names = ["self"] + names      # uniform treatment below: drop the first
+            elif names[:1] != ["self"]:
                 raise TranslateError("%s: %s.%s has no self" % (fname, cname, mname))
             local_names = set(names[1:])
             for sub in (n for st in fn.body for n in ast.walk(st)):
@@ -1228,7 +1233,7 @@ def gen_rfa_glue():
                     local_names.add(sub.id)
             _CTX["self_attrs"] = True
             _CTX["locals"] = set(local_names)
-            clone = ast.FunctionDef(name=cname + "." + mname, args=ast.arguments(posonlyargs=[], args=fn.args.args[1:], vararg=fn.args.vararg,
+            clone = ast.FunctionDef(name=cname + "." + mname, args=ast.arguments(posonlyargs=[], args=(fn.args.args if static else fn.args.args[1:]), vararg=fn.args.vararg,
                                     kwonlyargs=fn.args.kwonlyargs, kw_defaults=fn.args.kw_defaults, kwarg=fn.args.kwarg, defaults=fn.args.defaults),
                                     body=fn.body, decorator_list=[], lineno=fn.lineno)
             rows.append(_fun_row_rfa(clone, fname, bound))
